@@ -16,7 +16,7 @@ import (
 
 var exitHook func()
 
-var helperPkgs =[]string{"weed/util", "weed/storage/types"}
+var helperPkgs = []string{"weed/util", "weed/storage/types", "weed/storage/idx"}
 
 type runOpts struct {
 	repo, verif string
@@ -188,8 +188,14 @@ func runProperty(o *runOpts, prop string) ([]*FuncResult, error) {
 		if o.verbose {
 			fmt.Fprintf(os.Stderr, "loaded %d packages for tags %s in %.1fs\n", len(w.Pkgs), tags, time.Since(t0).Seconds())
 		}
+		flattenCache = map[string][]leaf{} // type layouts differ between build-tag configurations
 		x := NewExec(w)
 		x.sess = NewSession()
+		if os.Getenv("GCV_TRACE") != "" {
+			progressHook = func(s *Session) {
+				fmt.Fprintf(os.Stderr, "progress: %s queries=%d session=%.1fs restarts=%d paths=%d merged=%d obligs=%d instrs=%d\n", x.curFn, s.nquery, s.total.Seconds(), s.restarts, x.paths, x.merged, len(x.obligs), x.instrs)
+			}
+		}
 		var frs []*FuncResult
 		for _, c := range cons {
 			if o.only != "" && !strings.Contains(c.Key(), o.only) {
